@@ -11,7 +11,7 @@ Local Open Scope N_scope.
 Theorem view_sound_tt : forall V s1 s2 c genOK mta,
   sc_limited c = true -> Inv s1 -> Inv s2 ->
   relevant V c s1 = relevant V c s2 ->
-  tt_rel (st_tt (search_prologue s1 c genOK mta)) (st_tt (search_prologue s2 c genOK mta)).
+  tt_rel (st_tt (search_prologue V s1 c genOK mta)) (st_tt (search_prologue V s2 c genOK mta)).
 Proof.
   intros V s1 s2 c genOK mta Hl [_ G1] [_ G2] Hv.
   unfold relevant in Hv.
@@ -30,8 +30,8 @@ Qed.
 Theorem view_sound_probes : forall V s1 s2 c genOK mta ops,
   sc_limited c = true -> Inv s1 -> Inv s2 ->
   relevant V c s1 = relevant V c s2 ->
-  snd (tt_run (st_tt (search_prologue s1 c genOK mta)) ops) =
-  snd (tt_run (st_tt (search_prologue s2 c genOK mta)) ops).
+  snd (tt_run (st_tt (search_prologue V s1 c genOK mta)) ops) =
+  snd (tt_run (st_tt (search_prologue V s2 c genOK mta)) ops).
 Proof. intros. apply tt_run_rel. eapply view_sound_tt; eauto. Qed.
 
 (** * non-vacuity *)
@@ -84,7 +84,7 @@ Proof. vm_compute. repeat split. Qed.
 Example ex_view_sound :
   let a := run fixed_code ex_oracle (ex_history ++ [ClearHash]) (init fixed_code ex_opts) in
   let b := init fixed_code ex_opts in
-  snd (tt_run (st_tt (search_prologue a (ex_cmd 1 true true) true 0%Z)) f5_ops) =
-  snd (tt_run (st_tt (search_prologue b (ex_cmd 1 true true) true 0%Z)) f5_ops) /\
-  snd (tt_run (st_tt (search_prologue b (ex_cmd 1 true true) true 0%Z)) f5_ops) <> [None].
+  snd (tt_run (st_tt (search_prologue fixed_code a (ex_cmd 1 true true) true 0%Z)) f5_ops) =
+  snd (tt_run (st_tt (search_prologue fixed_code b (ex_cmd 1 true true) true 0%Z)) f5_ops) /\
+  snd (tt_run (st_tt (search_prologue fixed_code b (ex_cmd 1 true true) true 0%Z)) f5_ops) <> [None].
 Proof. vm_compute. split; [reflexivity | discriminate]. Qed.
